@@ -871,6 +871,10 @@ inline void prop_c15(const vf::Case& c, Ctx& ctx)
                         dj::crate cr = p->handle.create_sub_crate_after(name, a->handle);
                         adopt_new_crate(w, ctx, cr, name, p->id, (ok_after && w.v2) ? a->id : 0, w.hist);
                     }
+                    catch (const vf::Fail&)
+                    {
+                        throw;
+                    }
                     catch (const std::exception&)
                     {
                         w.hist += "!";
@@ -884,6 +888,10 @@ inline void prop_c15(const vf::Case& c, Ctx& ctx)
                     {
                         dj::crate cr = w.db.create_root_crate_after(name, a->handle);
                         adopt_new_crate(w, ctx, cr, name, 0, (root_after && w.v2) ? a->id : 0, w.hist);
+                    }
+                    catch (const vf::Fail&)
+                    {
+                        throw;
                     }
                     catch (const std::exception&)
                     {
@@ -951,6 +959,10 @@ inline void prop_c15(const vf::Case& c, Ctx& ctx)
                         else
                             cr->name = cr->handle.name();  // the model follows; C07 judges validity
                     }
+                    catch (const vf::Fail&)
+                    {
+                        throw;
+                    }
                     catch (const std::exception&)
                     {
                         w.hist += "!";
@@ -964,6 +976,10 @@ inline void prop_c15(const vf::Case& c, Ctx& ctx)
                     {
                         dj::crate ncr = w.db.create_root_crate(name);
                         adopt_new_crate(w, ctx, ncr, ncr.name(), 0, 0, w.hist);
+                    }
+                    catch (const vf::Fail&)
+                    {
+                        throw;
                     }
                     catch (const std::exception&)
                     {
